@@ -40,6 +40,207 @@ theorem massOf_eq_zero_of_not_mem (k : K) (r : Rec K M) (h : k ∉ kinds r) : ma
     rw [massOf_cons, if_neg (fun h' => h.1 h'.symm), zero_add]
     exact ih h.2
 
+/-! ### `takeFirst` and the addition -/
+
+theorem takeFirst_none_iff (k : K) (b : Rec K M) : takeFirst k b = none ↔ k ∉ kinds b := by
+  induction b with
+  | nil => simp [takeFirst, kinds]
+  | cons e b ih =>
+    by_cases h : e.1 = k
+    · simp [takeFirst, h, kinds]
+    · have h' : ¬ k = e.1 := fun x => h x.symm
+      simp only [takeFirst, h, if_false, kinds, List.map_cons, List.mem_cons, h', false_or]
+      cases ht : takeFirst k b with
+      | none => simpa [ht, kinds] using ih
+      | some p => simp [ht, kinds] at ih ⊢; exact ih
+
+/-- Taking an entry out conserves the total, every kind's mass, and the remaining kinds. -/
+theorem takeFirst_some {k : K} {b b' : Rec K M} {m : M} (h : takeFirst k b = some (m, b')) :
+    total b = m + total b' ∧ (∀ k', massOf k' b = (if k = k' then m else 0) + massOf k' b') ∧
+    (kinds b).Perm (k :: kinds b') := by
+  induction b generalizing b' m with
+  | nil => simp [takeFirst] at h
+  | cons e b ih =>
+    by_cases hk : e.1 = k
+    · simp only [takeFirst, hk, if_true, Option.some.injEq, Prod.mk.injEq] at h
+      obtain ⟨rfl, rfl⟩ := h
+      refine ⟨rfl, fun k' => ?_, ?_⟩
+      · rw [massOf_cons, hk]
+      · simp [kinds, hk]
+    · simp only [takeFirst, hk, if_false] at h
+      cases ht : takeFirst k b with
+      | none => simp [ht] at h
+      | some p =>
+        obtain ⟨m0, b0⟩ := p
+        simp only [ht, Option.some.injEq, Prod.mk.injEq] at h
+        obtain ⟨rfl, rfl⟩ := h
+        obtain ⟨h1, h2, h3⟩ := ih ht
+        refine ⟨?_, fun k' => ?_, ?_⟩
+        · rw [total_cons, total_cons, h1]; exact add_left_comm _ _ _
+        · rw [massOf_cons, massOf_cons, h2 k']; exact add_left_comm _ _ _
+        · have : kinds (e :: b0) = e.1 :: kinds b0 := rfl
+          rw [this]
+          exact (List.Perm.cons e.1 h3).trans (List.Perm.swap _ _ _)
+
+/-- Addition conserves the total mass — for *all* records, also those that list a kind twice. -/
+theorem total_add (a b : Rec K M) : total (add a b) = total a + total b := by
+  induction a generalizing b with
+  | nil => simp [add]
+  | cons e a ih =>
+    unfold add
+    cases ht : takeFirst e.1 b with
+    | none => simp only [total_cons, ih, add_assoc]
+    | some p =>
+      obtain ⟨m, b'⟩ := p
+      simp only [total_cons, ih, (takeFirst_some ht).1]
+      ac_rfl
+
+/-- Addition adds the mass of every kind — for all records. -/
+theorem massOf_add (k : K) (a b : Rec K M) : massOf k (add a b) = massOf k a + massOf k b := by
+  induction a generalizing b with
+  | nil => simp [add, massOf]
+  | cons e a ih =>
+    unfold add
+    cases ht : takeFirst e.1 b with
+    | none => simp only [massOf_cons, ih, add_assoc]
+    | some p =>
+      obtain ⟨m, b'⟩ := p
+      simp only [massOf_cons, ih, (takeFirst_some ht).2.1 k]
+      by_cases h : e.1 = k
+      · simp [h]; ac_rfl
+      · simp [h]
+
+/-- The kinds of the sum are the kinds of the left operand followed by those kinds of the right
+operand that found no partner: as multisets, `kinds (add a b) + (matched) = kinds a + kinds b`;
+in particular no new kind appears and none is lost. -/
+theorem mem_kinds_add (k : K) (a b : Rec K M) : k ∈ kinds (add a b) ↔ k ∈ kinds a ∨ k ∈ kinds b := by
+  induction a generalizing b with
+  | nil => simp [add, kinds]
+  | cons e a ih =>
+    unfold add
+    cases ht : takeFirst e.1 b with
+    | none =>
+      have : kinds (e :: add a b) = e.1 :: kinds (add a b) := rfl
+      rw [this, List.mem_cons, ih]
+      have : kinds (e :: a) = e.1 :: kinds a := rfl
+      rw [this, List.mem_cons, or_assoc]
+    | some p =>
+      obtain ⟨m, b'⟩ := p
+      have hp := (takeFirst_some ht).2.2
+      have : kinds ((e.1, e.2 + m) :: add a b') = e.1 :: kinds (add a b') := rfl
+      rw [this, List.mem_cons, ih, hp.mem_iff]
+      have : kinds (e :: a) = e.1 :: kinds a := rfl
+      rw [this, List.mem_cons, List.mem_cons]
+      constructor
+      · rintro (h | h | h)
+        · exact Or.inl (Or.inl h)
+        · exact Or.inl (Or.inr h)
+        · exact Or.inr (Or.inr h)
+      · rintro ((h | h) | h | h)
+        · exact Or.inl h
+        · exact Or.inr (Or.inl h)
+        · exact Or.inl h
+        · exact Or.inr (Or.inr h)
+
+/-- The sum of two well-formed records is well formed. -/
+theorem wellFormed_add (a b : Rec K M) (ha : WellFormed a) (hb : WellFormed b) :
+    WellFormed (add a b) := by
+  induction a generalizing b with
+  | nil => simpa [add] using hb
+  | cons e a ih =>
+    have ha' : WellFormed a := (List.nodup_cons.mp ha).2
+    have hnot : e.1 ∉ kinds a := (List.nodup_cons.mp ha).1
+    unfold add
+    cases ht : takeFirst e.1 b with
+    | none =>
+      have hb0 : e.1 ∉ kinds b := (takeFirst_none_iff _ _).mp ht
+      have : kinds (e :: add a b) = e.1 :: kinds (add a b) := rfl
+      unfold WellFormed; rw [this]
+      refine List.nodup_cons.mpr ⟨?_, ih b ha' hb⟩
+      rw [mem_kinds_add]; exact fun h => h.elim hnot hb0
+    | some p =>
+      obtain ⟨m, b'⟩ := p
+      have hp := (takeFirst_some ht).2.2
+      have hb2 : (e.1 :: kinds b').Nodup := hp.nodup_iff.mp hb
+      have hb' : WellFormed b' := (List.nodup_cons.mp hb2).2
+      have hb0 : e.1 ∉ kinds b' := (List.nodup_cons.mp hb2).1
+      have : kinds ((e.1, e.2 + m) :: add a b') = e.1 :: kinds (add a b') := rfl
+      unfold WellFormed; rw [this]
+      refine List.nodup_cons.mpr ⟨?_, ih b' ha' hb'⟩
+      rw [mem_kinds_add]; exact fun h => h.elim hnot hb0
+
+/-- In a well-formed record the entry taken out carries its kind's whole mass. -/
+theorem takeFirst_wellFormed (k : K) (b : Rec K M) (hb : WellFormed b) :
+    takeFirst k b = if k ∈ kinds b then some (massOf k b, b.filter (fun e => !decide (e.1 = k))) else none := by
+  induction b with
+  | nil => simp [takeFirst, kinds]
+  | cons e b ih =>
+    have hb' : WellFormed b := (List.nodup_cons.mp hb).2
+    have hnot : e.1 ∉ kinds b := (List.nodup_cons.mp hb).1
+    have hkk : kinds (e :: b) = e.1 :: kinds b := rfl
+    by_cases h : e.1 = k
+    · subst h
+      have hf : b.filter (fun x => !decide (x.1 = e.1)) = b := by
+        apply List.filter_eq_self.mpr
+        intro x hx
+        have : x.1 ≠ e.1 := fun hh => hnot (hh ▸ List.mem_map_of_mem (f := fun y => y.1) hx)
+        simpa using this
+      simp [takeFirst, hkk, massOf_cons, massOf_eq_zero_of_not_mem _ _ hnot, List.filter_cons, hf]
+    · have h' : ¬ k = e.1 := fun x => h x.symm
+      simp only [takeFirst, h, if_false, ih hb', hkk, List.mem_cons, h', false_or, massOf_cons, zero_add]
+      by_cases hm : k ∈ kinds b
+      · simp [hm, List.filter_cons, h]
+      · simp [hm]
+
+/-- On well-formed operands the addition is the union merge `addSpec`. -/
+theorem add_eq_spec (a b : Rec K M) (ha : WellFormed a) (hb : WellFormed b) : add a b = addSpec a b := by
+  induction a generalizing b with
+  | nil => simp [add, addSpec, kinds]
+  | cons e a ih =>
+    have ha' : WellFormed a := (List.nodup_cons.mp ha).2
+    have hnot : e.1 ∉ kinds a := (List.nodup_cons.mp ha).1
+    have hkk : kinds (e :: a) = e.1 :: kinds a := rfl
+    unfold add
+    rw [takeFirst_wellFormed _ _ hb]
+    by_cases hm : e.1 ∈ kinds b
+    · rw [if_pos hm]
+      have hb' : WellFormed (b.filter (fun x => !decide (x.1 = e.1))) :=
+        List.Nodup.sublist (List.Sublist.map _ List.filter_sublist) hb
+      simp only [ih _ ha' hb']
+      unfold addSpec
+      rw [List.map_cons, List.cons_append]
+      congr 1
+      congr 1
+      · apply List.map_congr_left
+        intro x hx
+        have hx1 : x.1 ≠ e.1 := fun hh => hnot (hh ▸ List.mem_map_of_mem (f := fun y => y.1) hx)
+        congr 1; congr 1
+        unfold massOf
+        rw [List.filter_filter]
+        congr 1
+        apply List.filter_congr
+        intro y _
+        by_cases hy : y.1 = x.1
+        · simp [hy, hx1]
+        · simp [hy]
+      · rw [List.filter_filter]
+        apply List.filter_congr
+        intro y _
+        rw [hkk]
+        by_cases hy : y.1 = e.1 <;> simp [hy, List.mem_cons]
+    · rw [if_neg hm]
+      simp only [ih _ ha' hb]
+      unfold addSpec
+      rw [List.map_cons, List.cons_append, massOf_eq_zero_of_not_mem _ _ hm, add_zero]
+      congr 1
+      congr 1
+      apply List.filter_congr
+      intro y hy
+      have : y.1 ≠ e.1 := fun hh => hm (hh ▸ List.mem_map_of_mem (f := fun z => z.1) hy)
+      rw [hkk]; simp [List.mem_cons, this]
+
+/-! ### The addition as found (`addLegacy`) -/
+
 /-- In a well-formed record the first entry of a kind carries that kind's whole mass. -/
 theorem firstOf_eq (k : K) (b : Rec K M) (hb : WellFormed b) :
     (match firstOf k b with | some e => e.2 | none => 0) = massOf k b := by
@@ -72,20 +273,6 @@ theorem addRest_eq_filter (aks : List K) (seen : List K) (b : Rec K M)
     by_cases h : e.1 ∈ aks
     · simp [addRest, h, he, List.filter_cons, ih _ hb' hs']
     · simp [addRest, h, List.filter_cons, ih _ hb' hs']
-
-theorem add_eq_spec (a b : Rec K M) (hb : WellFormed b) : add a b = addSpec a b := by
-  unfold add addSpec
-  split
-  · rename_i h
-    have : a = [] := List.isEmpty_iff.mp h
-    subst this; simp [kinds]
-  · congr 1
-    · unfold addMatched
-      apply List.map_congr_left
-      intro e _
-      rw [← firstOf_eq e.1 b hb]
-      cases firstOf e.1 b <;> simp
-    · exact addRest_eq_filter _ _ _ hb (by simp)
 
 theorem total_map_add (a : Rec K M) (f : K → M) :
     total (a.map (fun e => (e.1, e.2 + f e.1))) = total a + (a.map (fun e => f e.1)).sum := by
